@@ -421,14 +421,21 @@ fn small_bufs(max_len: usize) -> Vec<Buf> {
     all_inputs(&['a', 'b', 'é'], max_len).iter().map(|w| Buf::new(w)).collect()
 }
 
-pub fn run(cx: &RunCtx) -> i32 {
+/// The native workload (parts 1, 2, 2b); runs in a child process because a double drop may corrupt the
+/// allocator and take the process down.  `cvh child c19 <tier> <seed> <threads>`
+pub fn child_native(args: &[String]) -> i32 {
+    crate::ev::EAGER.store(true, std::sync::atomic::Ordering::Relaxed);
+    let cx = &RunCtx { prop: "C19".into(), tier: args[0].clone(), seed: args[1].parse().unwrap_or(0), threads: args[2].parse().unwrap_or(8), evidence_path: String::new(), replay_dir: String::new(), known_path: String::new(), start: std::time::Instant::now() };
     let max_len = cx.t(4, 5);
     let bufs = small_bufs(max_len);
     let size = cx.t(3, 4);
     let eb = enum_basis();
     let grammars: Vec<G> = eb.up_to(size);
     let n_enum = grammars.len();
-    let mut acc = for_each_index(grammars.len(), cx.threads, 8, |acc, gi| one_grammar(acc, &grammars[gi], &bufs, true));
+    let mut acc = for_each_index(grammars.len(), cx.threads, 8, |acc, gi| {
+        acc.eager = true;
+        one_grammar(acc, &grammars[gi], &bufs, true)
+    });
     acc.count("enumerated_grammars", n_enum as u64);
 
     let n_rand = cx.t(160_000, 2_000_000);
@@ -457,6 +464,37 @@ pub fn run(cx: &RunCtx) -> i32 {
         zst_family(acc, &mine);
     });
     acc.merge(zacc);
+
+    println!("ACC {}", acc.to_json());
+    0
+}
+
+fn sizes(cx: &RunCtx) -> (usize, usize, usize, usize) {
+    (cx.t(4, 5), cx.t(3, 4), cx.t(160_000, 2_000_000), all_inputs(&['a', 'b', 'c'], cx.t(4, 6)).len())
+}
+
+pub fn run(cx: &RunCtx) -> i32 {
+    let (max_len, size, n_rand, nw) = sizes(cx);
+    let mut acc = Acc::default();
+    let c = crate::proc::run_child(&["c19".into(), cx.tier.clone(), cx.seed.to_string(), cx.threads.to_string()], std::time::Duration::from_secs(cx.t(1800, 4 * 3600)), 24 << 20);
+    let child_acc = c.stdout.lines().rev().find_map(|l| l.strip_prefix("ACC ").and_then(|j| serde_json::from_str::<Value>(j).ok())).map(|v| Acc::from_json(&v));
+    acc.count("child_processes", 1);
+    match (child_acc, c.code, c.timed_out) {
+        (Some(a), Some(0), _) => acc.merge(a),
+        (_, _, true) => {
+            acc.inconclusive += 1;
+            eprintln!("C19: the child running the drop-ledger workload was killed by the wall-clock watchdog (inconclusive): {}", c.describe());
+        }
+        _ => {
+            // whatever the ledger reported before the process went down, then the death itself
+            for l in c.stdout.lines().filter_map(|l| l.strip_prefix("VIOL ")) {
+                if let Ok(v) = serde_json::from_str::<Value>(l) {
+                    acc.viol(Viol { weight: v["weight"].as_u64().unwrap_or(0) as usize, what: v["what"].as_str().unwrap_or("").to_string(), detail: v["detail"].clone() });
+                }
+            }
+            acc.viol(Viol { weight: 100_000, what: format!("C19: the process running the drop-ledger workload died ({}): memory corruption such as a double free of an output value", c.describe()), detail: json!({"grammar_text": "drop-ledger workload", "input": "", "child": c.describe()}) });
+        }
+    }
 
     // (3)
     crate::san::miri_job_flags(&mut acc, cx, "C19", "c19", cx.t(16, 48), cx.t(2, 8), "");
